@@ -4,7 +4,7 @@ NOT_BUILT = "check not built yet in this round (design in DESIGN.md section 3); 
 
 
 def fill(claim, na):
-    for p in ["C01", "C03", "C04",  "C10", "C13",
+    for p in ["C04",  "C10", "C13",
               "C15", "C16"]:
         na(p, NOT_BUILT)
     na("C05", "equality of decoded flux with the sector dump is a statement about decoding arbitrary bit-streams "
@@ -102,3 +102,20 @@ def fill(claim, na):
           "functions. Column formatting, cat's sort order and 'each file exactly once' are not decided.",
           "Trusts the transcription of the Acorn DFS layout and the domain's transfer functions.",
           "DESIGN.md 3/C02")
+    claim("C01",
+          "bit-provenance domain for the start-sector/length fields; provenance of the media argument of every "
+          "body read (call-graph, through locals and parameters); structural accounting rule of the sector walk "
+          "with constant folding of the empty-file case; shape rule for last_sector()",
+          "Decides structural clauses for every catalogue value: right bits, right volume, remaining-length "
+          "accounting, empty file hands over nothing. Unrecognised code shapes are reported as undecided (exit 2), "
+          "never as a pass. Byte-identity of sector contents and the renderings of type/list/dump are not decided.",
+          "Trusts the layout transcription and DFS::SECTOR_BYTES == 256 (folded from the source).",
+          "DESIGN.md 3/C01")
+    claim("C03",
+          "bit-provenance comparison of the line-number decoder with the expression parsed from doc/bbcbasic.5; "
+          "def-use of stream positions and stdin; structural rule on the indentation counter",
+          "Decides that GOTO/GOSUB targets are decoded by the documented formula for all 2^24 operand values, that "
+          "file and standard input cannot be treated differently, and that indentation is only adjusted by the "
+          "documented amounts. Token tables, framing, quoting and number formatting are not decided.",
+          "Trusts the man page's expression as the specification, as the property does.",
+          "DESIGN.md 3/C03")
